@@ -27,6 +27,13 @@ def afterintr_consts():
                       Vals=['v1'], Ctl=[])
 
 
+def afterdiscard_consts():
+    """a run that sends outputs and whose recording is then discarded (explicitly, or by a failing output data handler),
+    then another recorded run on the same recorder and its replay: its entries are numbered from 1 again"""
+    return gen_consts(2, MaxRuns=3, MaxRecs=2, Modes=['same'], EditKinds=[], OutResults=[('val', 'v1')], Ends=['ret'],
+                      InCalls=[('ia1', 1)], OutAliases=['oa1'], Vals=['v1'], Ctl=['discard'], OutFaults=['none', 'prepFail'])
+
+
 def deep_consts(n):
     return consts(InCalls=[], OutAliases=['oa1'], Vals=['v1', 'v2'], SentVals=['v1'], OutResults=[('val', 'v1')], Ends=['ret'],
                   Classes=[K('K1')], MaxSteps=n, MaxRuns=2, MaxRecs=1, Modes=['same', 'edit'],
@@ -39,7 +46,8 @@ def run(rep, tier, seed):
                 'call, changed result, raise instead of return); oracle = Playback.recorded_outputs / playback_outputs '
                 'as key->payload maps against the model, whose invariant OutputsExact states that they differ exactly '
                 'at the entries affected according to the per-alias sequences of sent payloads. deep configs drive one '
-                'alias past ordinal 10. non-trivial = an edited replay, or >= 10 output calls; distinct = event '
+                'alias past ordinal 10; histories with an interrupted or a discarded run before the recorded one. non-trivial = an '
+                'edited replay, or >= 10 output calls; distinct = event '
                 'sequence')
     rep.assumptions = ['recorded_outputs / playback_outputs are compared as maps (list order is not part of the statement)']
     chk = RecorderCheck(rep, tier, seed, CATS, nontrivial)
@@ -56,6 +64,7 @@ def run(rep, tier, seed):
             chk.generate('deep11', deep_consts(11), cassettes=('memory', 's3'), n_conc=1, sample=300, cap=500,
                          invariants=['TypeOK'], max_states=600000)
             chk.generate('afterintr', afterintr_consts(), cassettes=('memory',), n_conc=1, sample=2000, cap=4000)
+            chk.generate('afterdiscard', afterdiscard_consts(), cassettes=('memory',), n_conc=1, sample=2000, cap=4000)
         else:
             noctl = [e for e in EDITS if e != 'ctl']
             chk.check('chk', gen_consts(3), invariants=INVS, timeout=3000)
@@ -66,6 +75,8 @@ def run(rep, tier, seed):
             chk.generate('gen3ctl', gen_consts(3, InCalls=[('ia1', 1)], Vals=['v1']),
                          cassettes=('memory', 'file'), n_conc=1, sample=40000, cap=60000, max_states=800000)
             chk.generate('afterintr', afterintr_consts(), cassettes=('memory', 'file'), n_conc=1, all_paths=True, cap=100000)
+            chk.generate('afterdiscard', afterdiscard_consts(), cassettes=('memory', 'file'), n_conc=1, sample=40000, cap=60000,
+                         max_states=800000)
             chk.generate('deep12', deep_consts(12), cassettes=('memory', 'file', 's3'), n_conc=1, sample=5000, cap=8000,
                          invariants=['TypeOK'], max_states=800000)
     finally:
